@@ -114,7 +114,7 @@ VARIANTS = {
 
 
 def cache_dir():
-    """Build cache of the CURRENT tree; the three most recently used trees are kept, older ones deleted."""
+    """Build cache of the CURRENT tree; the six most recently used trees are kept, older ones deleted."""
     h = tree_hash()
     d = os.path.join(CACHE, h)
     with Lock("gc"):
@@ -123,7 +123,7 @@ def cache_dir():
         trees = [os.path.join(CACHE, e) for e in os.listdir(CACHE)
                  if os.path.isdir(os.path.join(CACHE, e)) and re.fullmatch(r"[0-9a-f]{16}", e)]
         trees.sort(key=lambda p: os.path.getmtime(p), reverse=True)
-        for p in trees[3:]:
+        for p in trees[6:]:
             shutil.rmtree(p, ignore_errors=True)
     return d
 
